@@ -34,6 +34,50 @@ pub fn c16_pagediff_bytes_roundtrip() {
     kani::cover!(!reserved, "accepted bitmap");
 }
 
+const fn pattern_page() -> [u8; 4096] {
+    let mut p = [0u8; 4096];
+    let mut i = 0;
+    while i < 4096 {
+        p[i] = (i / 32) as u8;
+        i += 1;
+    }
+    p
+}
+static PATTERN_PAGE: [u8; 4096] = pattern_page();
+
+/// pack_changed_nodes (the WAL entry encoder) emits exactly the nodes of the set slots, in increasing
+/// slot order - for every choice of up to three slots among all 126 (in particular the last ones) - and
+/// unpack_changed_nodes writes them back to the same slots.
+#[kani::proof]
+pub fn c16_pagediff_pack_order() {
+    let i: usize = kani::any();
+    let j: usize = kani::any();
+    let k: usize = kani::any();
+    kani::assume(i < 126 && j < 126 && k < 126 && i <= j && j <= k);
+    let mut d = PageDiff::default();
+    d.set_changed(i);
+    d.set_changed(j);
+    d.set_changed(k);
+    let distinct = 1 + (j != i) as usize + (k != j) as usize;
+    assert!(d.count() == distinct);
+    {
+        let mut it = d.pack_changed_nodes(&PATTERN_PAGE);
+        let a = it.next();
+        assert!(matches!(a, Some(n) if n[0] as usize == i && n[31] as usize == i));
+        if j != i {
+            let b = it.next();
+            assert!(matches!(b, Some(n) if n[0] as usize == j));
+        }
+        if k != j {
+            let c = it.next();
+            assert!(matches!(c, Some(n) if n[0] as usize == k));
+        }
+        assert!(it.next().is_none(), "more nodes packed than slots set");
+    }
+    kani::cover!(k == 125, "last slot");
+    kani::cover!(i == 0 && j == 63 && k == 64, "word boundary");
+}
+
 /// set_changed(i) sets exactly bit i (and erases the clear marker); join is the bitwise union.
 #[kani::proof]
 pub fn c16_pagediff_set_and_join() {
